@@ -82,7 +82,14 @@ class Loop(object):
                         w.callback(w, rev)
                 elif kind == 2:
                     if w.active:
-                        w.at = sim.now + w.repeat
+                        # ev_timer_again semantics: the watcher keeps repeating with its last interval until it
+                        # is restarted or stopped.  LibevLoop never stops it when its TimerManager runs empty, so
+                        # after an (almost) overdue timer the real loop re-fires every nanosecond and spins.  The
+                        # idle re-fire is coarsened to 5 ms here: observationally the same (the callback only
+                        # services an empty queue; _update_timer restarts the watcher whenever a timer exists).
+                        if w.repeat < 0.005:
+                            sim.probe('libev_timer_idle_spin')
+                        w.at = sim.now + max(w.repeat, 0.005)
                         w.callback()
             sim.yield_('libev.iter')
 
